@@ -53,6 +53,11 @@ type z =
 | Zpos of positive
 | Zneg of positive
 
+(** val eqb : bool -> bool -> bool **)
+
+let eqb b1 b2 =
+  if b1 then b2 else if b2 then false else true
+
 module Pos =
  struct
   (** val succ : positive -> positive **)
@@ -194,35 +199,37 @@ let rec find keqb k = function
 
 (** val step :
     ('a2 -> 'a1 -> value) -> (n list -> 'a3) -> ('a3 -> 'a3 -> bool) -> ('a2
-    -> 'a4) -> ('a2 -> bool) -> 'a1 list -> ('a3, 'a4) store -> 'a2 -> ('a3,
-    'a4) store * (how * 'a4) **)
+    -> 'a4) -> ('a4 -> bool) -> ('a2 -> bool) -> 'a1 list -> ('a3, 'a4) store
+    -> 'a2 -> ('a3, 'a4) store * (how * 'a4) **)
 
-let step get hash keqb compile bypass ks st r =
+let step get hash keqb compile ok bypass ks st r =
   if bypass r
   then (st, (Bypass, (compile r)))
   else (match find keqb (key get hash ks r) st with
         | Some o -> (st, (Hit, o))
         | None ->
-          let o = compile r in ((((key get hash ks r), o) :: st), (Miss, o)))
+          let o = compile r in
+          ((if ok o then ((key get hash ks r), o) :: st else st), (Miss, o)))
 
 (** val exec :
     ('a2 -> 'a1 -> value) -> (n list -> 'a3) -> ('a3 -> 'a3 -> bool) -> ('a2
-    -> 'a4) -> ('a2 -> bool) -> 'a1 list -> ('a3, 'a4) store -> 'a2 list ->
-    ('a3, 'a4) store * (how * 'a4) list **)
+    -> 'a4) -> ('a4 -> bool) -> ('a2 -> bool) -> 'a1 list -> ('a3, 'a4) store
+    -> 'a2 list -> ('a3, 'a4) store * (how * 'a4) list **)
 
-let rec exec get hash keqb compile bypass ks st = function
+let rec exec get hash keqb compile ok bypass ks st = function
 | [] -> (st, [])
 | r :: h' ->
-  let (st1, res) = step get hash keqb compile bypass ks st r in
-  let (st2, rs) = exec get hash keqb compile bypass ks st1 h' in
+  let (st1, res) = step get hash keqb compile ok bypass ks st r in
+  let (st2, rs) = exec get hash keqb compile ok bypass ks st1 h' in
   (st2, (res :: rs))
 
 (** val run :
     ('a2 -> 'a1 -> value) -> (n list -> 'a3) -> ('a3 -> 'a3 -> bool) -> ('a2
-    -> 'a4) -> ('a2 -> bool) -> 'a1 list -> 'a2 list -> (how * 'a4) list **)
+    -> 'a4) -> ('a4 -> bool) -> ('a2 -> bool) -> 'a1 list -> 'a2 list ->
+    (how * 'a4) list **)
 
-let run get hash keqb compile bypass ks h =
-  snd (exec get hash keqb compile bypass ks [] h)
+let run get hash keqb compile ok bypass ks h =
+  snd (exec get hash keqb compile ok bypass ks [] h)
 
 (** val list_eqb : n list -> n list -> bool **)
 
@@ -236,7 +243,7 @@ let rec list_eqb a b =
      | [] -> false
      | y :: b' -> (&&) (N.eqb x y) (list_eqb a' b'))
 
-type creq = bool * n list
+type creq = (bool * bool) * n list
 
 (** val cget : creq -> n -> value **)
 
@@ -248,7 +255,13 @@ let cget r i =
 (** val run_concrete : n list -> n list -> creq list -> (how * bool) list **)
 
 let run_concrete ks aff h =
-  let fresh = fun r -> serialise (map (cget r) aff) in
-  let res = run cget (fun x -> x) list_eqb fresh fst ks h in
+  let fresh = fun r -> ((snd (fst r)), (serialise (map (cget r) aff))) in
+  let out_eqb = fun a b ->
+    (&&) (eqb (fst a) (fst b)) (list_eqb (snd a) (snd b))
+  in
+  let res =
+    run cget (fun x -> x) list_eqb fresh (fun o -> negb (fst o)) (fun r ->
+      fst (fst r)) ks h
+  in
   map (fun p -> ((fst (fst p)),
-    (negb (list_eqb (snd (fst p)) (fresh (snd p)))))) (combine res h)
+    (negb (out_eqb (snd (fst p)) (fresh (snd p)))))) (combine res h)
